@@ -330,6 +330,29 @@ def concrete_suite(ctx):
                 ctx.check(ok, "prepared data holds, for each segment, the values of that segment's cell at every depth")
             else:
                 ctx.check(len(td['linear_index']) == 0, 'a path that misses the model gives an empty transect')
+    # metre distances of a bent path at high latitude, where a degree of longitude is half a degree of latitude: each
+    # segment far from the path's vertices (the known projection offset of this environment acts near them, see
+    # DESIGN section 6) is as long as the geodesic length of its piece of the path, within 6 percent
+    import pyproj
+    geod = pyproj.Geod(ellps='WGS84')
+    lat60, lon60 = numpy.arange(58.0, 67.0), numpy.arange(100.0, 114.0)
+    ds60 = builders.cf1d(len(lat60), len(lon60), lat=lat60, lon=lon60,
+                         data_vars={'temp': (('k', 'y', 'x'), numpy.zeros((2, len(lat60), len(lon60))))})
+    ds60 = ds60.assign_coords(zc=(('k',), numpy.array([1.0, 3.0]), {'positive': 'down', 'long_name': 'depth', 'units': 'm'}))
+    bent = shapely.LineString([(100.3, 59.4), (112.6, 59.7), (112.4, 65.6)])
+    tr60 = T.Transect(ds60, bent, depth='zc')
+    far, oks = 0, []
+    for sg in tr60.segments:
+        mid = sg.intersection.interpolate(0.5, normalized=True)
+        near = min(geod.inv(mid.x, mid.y, vx, vy)[2] for vx, vy in bent.coords)
+        if near < 150e3:
+            continue
+        far += 1
+        true_len = geod.geometry_length(sg.intersection)
+        got_len = sg.end_distance - sg.start_distance
+        oks.append(abs(got_len - true_len) <= 0.06 * true_len)
+    ctx.check(far >= 6, 'harness: enough segments far from the vertices of the bent path')
+    ctx.check(all(oks), 'metre distances: away from the path vertices every segment is as long as its piece of the path (geodesic, within 6 percent)')
     # a path whose vertices carry heights (a LineString with z values): the transect is about where the path runs on the map
     flat_line = shapely.LineString(lines1[1])
     high_line = shapely.LineString([(x, y, z) for (x, y), z in zip(lines1[1], (0.0, 5000.0, -300.0))])
